@@ -1,6 +1,6 @@
 //! Small-scope grammar of well-formed HTTP/1.x heads (shared by C05, C20, C12).
 
-pub const FIELD_POOL: [&[u8]; 18] = [
+pub const FIELD_POOL: [&[u8]; 19] = [
     b"Location: /caf\xe9/\xfcber",
     b"A: 1",
     b"A: 2",
@@ -23,6 +23,8 @@ pub const FIELD_POOL: [&[u8]; 18] = [
     b"Transfer-Encoding: ,chunked",
     // a zero-padded length of 20 digits
     b"Content-Length: 00000000000000000003",
+    // every token character that is neither a letter, a digit nor '-' / '_' is legal in a field name
+    b"X.Dotted!#$%&'*+^`|~: v",
 ];
 
 pub const STATUSES: [u16; 12] = [101, 200, 204, 299, 301, 302, 304, 307, 399, 404, 500, 999];
